@@ -301,6 +301,9 @@ func checkC09(c *Check) {
 		}
 		nep++
 		okC, why := t.scansWholeQueue(fn)
+		if okC {
+			okC, why = t.trueOnAnyCredDisp(fn)
+		}
 		c.Cond(okC, "end-evidence-complete", "end-of-session predicate "+fn.Name(), p.Pos(fn.Pos()), "true as soon as any held event is the credential-disposal record, false only after the whole queue was examined", "the predicate can miss a held credential-disposal record ("+why+"): an ended session is not released when its late login arrives, and a later sshd with the same PID is bound to it")
 	}
 	c.Floor("end-of-session predicates on the hold queue", 1, nep)
@@ -308,7 +311,7 @@ func checkC09(c *Check) {
 	// 6. the end-of-session record of a session still waiting for its login
 	// is in the hold queue: every delivered event of an unbound session is
 	// held (never dropped), in a queue that is the object's own (rules of C02)
-	ne := importRules(c, "C02", checkC02, "end-record-held: ", "exactly-one-of", "hold-iff-unbound", "queue-private")
+	ne := importRules(c, "C02", checkC02, "end-record-held: ", "exactly-one-of", "hold-iff-unbound", "queue-private", "event-reaches-correlation")
 	c.Floor("imported end-record-held obligations", 10, ne)
 	// 7. the login of the new sshd with a reused PID reaches the correlator:
 	// every accepted login is handed over, whatever PIDs were seen before
@@ -732,4 +735,106 @@ func (t *Tracker) scansWholeQueue(fn *ssa.Function) (bool, string) {
 		return false, "false is returned from inside the scan, before the remaining events were examined"
 	}
 	return true, ""
+}
+
+
+// trueOnAnyCredDisp: the predicate answers true for *every* held
+// credential-disposal record: on the way to "true" the record is tested for
+// its type only. A further condition on the record (its result, its
+// executable, ...) makes the hold-queue test narrower than the direct path,
+// which ends the session on any credential-disposal record: a held record
+// that fails the extra condition is flushed without the session being
+// released.
+func (t *Tracker) trueOnAnyCredDisp(fn *ssa.Function) (bool, string) {
+	r := NewResolver(t.P)
+	isElem := func(o *Org) bool {
+		if o.K == "index" || (o.K == "range" && o.Name == "value") {
+			q := o.Sub[0]
+			return (q.K == "field" && q.Name == "cached") || q.K == "param"
+		}
+		return false
+	}
+	var mentionsElem func(o *Org, depth int) (bool, string)
+	mentionsElem = func(o *Org, depth int) (bool, string) {
+		if o == nil || depth > 6 {
+			return false, ""
+		}
+		if o.K == "field" {
+			root, names := o.FieldPath()
+			if isElem(root) {
+				return true, strings.Join(names, ".")
+			}
+		}
+		if o.K == "call" {
+			if cl, ok := o.V.(*ssa.Call); ok {
+				rr := o.R
+				if rr == nil {
+					rr = r
+				}
+				for _, a := range cl.Call.Args {
+					ao := rr.Of(a)
+					if isElem(ao) {
+						return true, "call(" + o.Name + ")"
+					}
+					if m, w := mentionsElem(ao, depth+1); m {
+						return true, w
+					}
+				}
+			}
+		}
+		for _, s := range o.Sub {
+			if m, w := mentionsElem(s, depth+1); m {
+				return true, w
+			}
+		}
+		return false, ""
+	}
+	okAll, why := true, ""
+	check := func(at ssa.Instruction) {
+		for _, g := range guardAtoms(r, at) {
+			if g.Expanded {
+				continue
+			}
+			isType := false
+			for _, pair := range [][2]*Org{{g.X, g.Y}, {g.Y, g.X}} {
+				if pair[0] == nil || pair[1] == nil {
+					continue
+				}
+				if pair[0].K == "field" && pair[0].Name == "Type" && pair[1].K == "const" {
+					if k, ok := pair[1].ConstInt(); ok && k == t.CredDisp {
+						isType = true
+					}
+				}
+			}
+			if isType {
+				continue
+			}
+			for _, o := range []*Org{g.X, g.Y} {
+				if m, w := mentionsElem(o, 0); m {
+					okAll = false
+					why = "besides its type the held record must also satisfy a condition on " + w + " before the predicate answers true; the direct path ends the session on any credential-disposal record"
+				}
+			}
+		}
+	}
+	allInstrs(fn, func(in ssa.Instruction) {
+		ret, ok := in.(*ssa.Return)
+		if !ok || len(ret.Results) != 1 {
+			return
+		}
+		switch v := ret.Results[0].(type) {
+		case *ssa.Const:
+			if v.Value != nil && v.Value.Kind() == constant.Bool && constant.BoolVal(v.Value) {
+				check(ret)
+			}
+		case *ssa.Phi:
+			for i, e := range v.Edges {
+				if k, isC := e.(*ssa.Const); isC && k.Value != nil && k.Value.Kind() == constant.Bool && constant.BoolVal(k.Value) {
+					pred := v.Block().Preds[i]
+					check(pred.Instrs[len(pred.Instrs)-1])
+				}
+			}
+		}
+	})
+	return okAll, why
 }
